@@ -3,6 +3,8 @@
 pub trait Pixel: Copy {
     // value of the sample as an integer (u8 and u16 are the only implementors of v_frame::Pixel)
     spec fn code(self) -> int;
+    // every implementor is a 1- or 2-byte sample type (u8, u16): an obligation on implementors, usable for generic T
+    proof fn ax_size() ensures size_of::<Self>() == 1 || size_of::<Self>() == 2;
 }
 pub struct PlaneData<T> { pub v: Vec<T> }
 impl<T> PlaneData<T> {
@@ -59,18 +61,17 @@ pub fn get_unchecked_ref_<T>(s: &[T], i: usize) -> (r: &T)
     ensures *r == s@[i as int],
 { unsafe { s.get_unchecked(i) } }
 
-// Plane::new(width, height, xdec, ydec, xpad, ypad): PlaneConfig::new + PlaneData::new(stride * alloc_height),
-// every element initialised to T::cast_from(128).  Transcribed from plane.rs for the only way the repo calls it
-// (xpad == ypad == 0): xorigin = yorigin = 0, stride = width rounded up to the 64-byte alignment, alloc_height = height.
+// Plane::new(width, height, xdec, ydec, xpad, ypad) =
+//     let cfg = PlaneConfig::new(width, height, xdec, ydec, xpad, ypad, size_of::<T>());   <- extracted from v_frame and VERIFIED (cfg_post)
+//     let data = PlaneData::new(cfg.stride * cfg.alloc_height);                            <- assumed: that many samples, all T::cast_from(128)
 // ASSUMPTION (requires): the allocation size stride*alloc_height does not overflow usize.
 impl<T: Pixel> Plane<T> {
     #[verifier::external_body]
     pub fn new(width: usize, height: usize, xdec: usize, ydec: usize, xpad: usize, ypad: usize) -> (r: Self)
-        requires xpad == 0, ypad == 0, (width + 64) * height <= usize::MAX,
-        ensures r.cfg.width == width, r.cfg.height == height, r.cfg.xdec == xdec, r.cfg.ydec == ydec,
-                r.cfg.xpad == 0, r.cfg.ypad == 0, r.cfg.xorigin == 0, r.cfg.yorigin == 0,
-                width <= r.cfg.stride <= width + 63, r.cfg.alloc_height == height,
-                r.data.v@.len() == r.cfg.stride * height, r.data.v@.len() <= usize::MAX,
+        requires size_of::<T>() == 1 || size_of::<T>() == 2,
+                 (xpad + 64 + width + xpad + 64) * (ypad + height + ypad) <= usize::MAX, ypad + height + ypad <= usize::MAX, xpad + 64 + width + xpad + 64 <= usize::MAX,
+        ensures cfg_post(r.cfg, width, height, xdec, ydec, xpad, ypad),
+                r.data.v@.len() == r.cfg.stride * r.cfg.alloc_height, r.data.v@.len() <= usize::MAX,
                 forall|i: int| 0 <= i < r.data.v@.len() ==> (#[trigger] r.data.v@[i]).code() == 128,
     { unimplemented!() }
 }
